@@ -3,7 +3,7 @@
 # the agent's independent property check passes with and without it, the behaviour digest differs, 81 tests pass. Stored under /verif/dontcare/<CNN>-q/
 id=$1
 wt=/tmp/wt_q$id
-dst=/verif/dontcare/$id-q
+dst=/verif/dontcare/$id-${2:-q}
 cd $wt || exit 9
 [ -s seeded_patch.diff ] || { echo "no patch"; exit 9; }
 git checkout -- singlecellmultiomics 2>/dev/null
